@@ -324,6 +324,12 @@ class CharInterp:
                         self._bind(e2, st.target.elts[0].id, I("nonneg"))
                         src = self.ev(it.args[0], env, m)
                         self._bind(e2, st.target.elts[1].id, src.elem if isinstance(src, L) else EITHER)
+                    elif isinstance(st.target, ast.Name) and isinstance(it, ast.Call) and dotted(it.func) == "range":
+                        for a in it.args:
+                            self.ev(a, env, m)
+                        nonneg = all(isinstance(self.ev(a, env, m), I) and self.ev(a, env, m).sign == "nonneg" for a in it.args[:2]) \
+                            and len(it.args) < 3
+                        self._bind(e2, st.target.id, I("nonneg" if nonneg else "any"))
                     elif isinstance(st.target, ast.Name):
                         src = self.ev(it, env, m)
                         self._bind(e2, st.target.id, src.elem if isinstance(src, L) else EITHER)
@@ -554,6 +560,11 @@ class CharInterp:
             return B(b.when_false, b.when_true)
         if isinstance(n, ast.Subscript):
             base = self.ev(n.value, env, m)
+            if base == EITHER:
+                return EITHER  # an item of the list of member values
+            if isinstance(base, L) and not isinstance(n.slice, ast.Slice):
+                self.ev(n.slice, env, m)
+                return join_s(base.elem, base.head)
             if isinstance(base, S) and isinstance(n.slice, ast.Constant) and n.slice.value == 0 and isinstance(n.value, ast.Name):
                 return ("char0", n.value.id, S(base.first, base.first, False))
             if isinstance(base, S):
@@ -705,6 +716,11 @@ class CharInterp:
                 if meth in ("strip", "lstrip", "rstrip"):
                     return S(recv.any, recv.any, True)
             raise AnalysisError(f"E6: unsupported method .{meth} at {m.rel}:{n.lineno}")
+        if fn == "bool" and len(n.args) == 1 and not n.keywords:
+            return self.truth(n.args[0], env, m)
+        if fn == "len" and len(n.args) == 1:
+            self.ev(n.args[0], env, m)
+            return I("nonneg")
         if fn == "any" or fn == "all":
             self.ev(n.args[0], env, m)
             return B()
